@@ -34,8 +34,11 @@ impl SwiftField for Field75 {
 
         // Parse up to 6 lines of 35 characters each
         for line in input.lines() {
+            // More lines than the format allows are an error, not something to drop silently
             if information.len() >= 6 {
-                break;
+                return Err(ParseError::InvalidFormat {
+                    message: "Field75 cannot have more than 6 lines".to_string(),
+                });
             }
 
             if line.len() > 35 {
